@@ -148,3 +148,100 @@ def cfg_info(body):
             blocks.add(x)
             st.extend(pred[x])
     return succ, loops
+
+
+def _place_locals(p, out):
+    out.add(p['l'])
+    for e in p['p']:
+        if e['k'] == 'index':
+            out.add(e['l'])
+
+
+def _op_locals(o, out):
+    if o['o'] in ('copy', 'move'):
+        _place_locals(o['p'], out)
+
+
+def liveness(body, succ):
+    """live-in sets of locals per basic block; locals whose address is taken are always live"""
+    n = len(body['blocks'])
+    use = [set() for _ in range(n)]
+    defs = [set() for _ in range(n)]
+    addr = set()
+    for i, bb in enumerate(body['blocks']):
+        u, d = use[i], defs[i]
+
+        def use_l(ls):
+            for l in ls:
+                if l not in d:
+                    u.add(l)
+        for s in bb['stmts']:
+            k = s['s']
+            if k == 'assign':
+                rv = s['rv']
+                ls = set()
+                r = rv['r']
+                if r in ('use', 'un', 'cast', 'repeat'):
+                    _op_locals(rv['a'], ls)
+                elif r == 'bin':
+                    _op_locals(rv['a'], ls)
+                    _op_locals(rv['b'], ls)
+                elif r in ('ref', 'rawptr'):
+                    _place_locals(rv['p'], ls)
+                    addr.add(rv['p']['l'])
+                elif r == 'discr':
+                    _place_locals(rv['p'], ls)
+                elif r == 'agg':
+                    for o in rv['ops']:
+                        _op_locals(o, ls)
+                use_l(ls)
+                p = s['p']
+                if p['p']:
+                    ls2 = set()
+                    _place_locals(p, ls2)
+                    use_l(ls2)
+                else:
+                    d.add(p['l'])
+            elif k == 'setdiscr':
+                ls2 = set()
+                _place_locals(s['p'], ls2)
+                use_l(ls2)
+            elif k == 'assume':
+                ls = set()
+                _op_locals(s['a'], ls)
+                use_l(ls)
+        t = bb['term']
+        k = t['t']
+        ls = set()
+        if k == 'switch':
+            _op_locals(t['a'], ls)
+        elif k == 'assert':
+            _op_locals(t['cond'], ls)
+            for o in t['ops']:
+                _op_locals(o, ls)
+        elif k == 'call':
+            _op_locals(t['func'], ls)
+            for o in t['args']:
+                _op_locals(o, ls)
+            if t['dest']['p']:
+                _place_locals(t['dest'], ls)
+        elif k == 'drop':
+            _place_locals(t['p'], ls)
+        elif k == 'return':
+            ls.add(0)
+        use_l(ls)
+        if k == 'call' and not t['dest']['p']:
+            d.add(t['dest']['l'])
+    live_in = [set() for _ in range(n)]
+    changed = True
+    while changed:
+        changed = False
+        for i in range(n - 1, -1, -1):
+            out = set()
+            for w in succ[i]:
+                out |= live_in[w]
+            li = use[i] | (out - defs[i])
+            if li != live_in[i]:
+                live_in[i] = li
+                changed = True
+    return live_in, addr
